@@ -46,10 +46,8 @@ def addOp? : String → Option AddOp
 def mulOp? : String → Option MulOp
   | "mul" => some .mul | "div" => some .div | "mod" => some .mod | _ => none
 
-abbrev R (α : Type) := Option (α × List String)
-
 mutual
-partial def rdE : List String → R PExpr
+partial def rdE : List String → Option (PExpr × List String)
   | "lit" :: k :: h :: r => do let k ← litK? k; let s ← unhex h; some (.lit k s, r)
   | "ident" :: h :: r => do let s ← unhex h; some (.ident s, r)
   | "dotident" :: h :: r => do let s ← unhex h; some (.dotIdent s, r)
@@ -85,13 +83,13 @@ partial def rdE : List String → R PExpr
   | "or" :: r => do let (a, r) ← rdE r; let (b, r) ← rdE r; some (.or a b, r)
   | "cond" :: r => do let (c, r) ← rdE r; let (a, r) ← rdE r; let (b, r) ← rdE r; some (.cond c a b, r)
   | _ => none
-partial def rdArgs : Nat → List String → R PArgs
+partial def rdArgs : Nat → List String → Option (PArgs × List String)
   | 0, r => some (.nil, r)
   | n + 1, r => do let (e, r) ← rdE r; let (as, r) ← rdArgs n r; some (.cons e as, r)
-partial def rdInits : Nat → List String → R PInits
+partial def rdInits : Nat → List String → Option (PInits × List String)
   | 0, r => some (.nil, r)
   | n + 1, r => do let (k, r) ← rdE r; let (v, r) ← rdE r; let (kvs, r) ← rdInits n r; some (.cons k v kvs, r)
-partial def rdFields : Nat → List String → R PFields
+partial def rdFields : Nat → List String → Option (PFields × List String)
   | 0, r => some (.nil, r)
   | n + 1, r =>
       match r with
@@ -110,14 +108,24 @@ def handle : Handler
   | "E" :: rest =>
       match rdE rest with
       | some (e, []) =>
-          let fp := fullParen e
+          let isWf := wf e
+          -- the expression whose tree the token string has: `e` itself when well-formed (theorem
+          -- render_derives), otherwise whatever the checked parser finds for the tokens
+          let target := if isWf then some e else parse (render e)
+          let reparse := match parse (render e), target with
+            | some e', some t => b01 ((toTree e').show == (toTree t).show)
+            | none, none => "1"
+            | _, _ => "0"
           " | ".intercalate [
-            "wf=" ++ b01 (wf e), "el=" ++ b01 (hasEmptyList e), "level=" ++ toString (level e),
-            "toks=" ++ showToks (render e), "fp=" ++ showToks (render fp),
-            "tree=" ++ (toTree e).show, "fptree=" ++ (toTree fp).show,
-            "strip=" ++ (strip (toTree e)).show, "fpstrip=" ++ (strip (toTree fp)).show,
-            "dump=" ++ showDump (dump (toTree e)),
-            "parse=" ++ (match parse (render e) with | some e' => (toTree e').show | none => "none")]
+            "wf=" ++ b01 isWf,
+            "el=" ++ (match target with | some t => b01 (hasEmptyList t) | none => "0"),
+            "toks=" ++ showToks (render e),
+            "fptoks=" ++ showToks (render (fullParen e)),
+            "tree=" ++ (match target with | some t => (toTree t).show | none => "none"),
+            "strip=" ++ (match target with | some t => (strip (toTree t)).show | none => "none"),
+            "fpstrip=" ++ (strip (toTree (fullParen e))).show,
+            "dump=" ++ (match target with | some t => showDump (dump (toTree t)) | none => "none"),
+            "reparse=" ++ reparse]
       | _ => "bad-op"
   | "P" :: rest =>
       match rest.mapM readTok with
